@@ -51,45 +51,59 @@ def strategy(tier):
     return st.tuples(st.one_of(st_program(cfg(tier, True)), st_program(cfg(tier, False))), st.integers(1, 3))
 
 
-def occurrences(prog, leaves, rels, env):
-    """{leaf index: [below an eager op, not below one, 'either']} counting paths.
+def occurrences(root, env):
+    """{leaf index: [below an eager op, not below one, 'either']} counting paths in the *library* tree.
 
-    An eager program node counts only if the factory call really added a node (materializing a leaf or a
-    materialization is documented to return the relation itself).  A deduplication applied directly to a leaf whose
-    payload already is a RowMapping may hand that payload back unchanged (documented RowMapping.to_mapping short-cut)
-    or build a new mapping, depending on key order: such occurrences are 'either' and get the union of both bounds.
+    Eager nodes are Sort / Deduplication operation relations and Materialization markers.  A deduplication applied
+    (through markers only) to a leaf whose payload already is a RowMapping may hand that payload back unchanged
+    (documented RowMapping.to_mapping short-cut) or build a new mapping, depending on key order; materialized() returns
+    an already materialized payload unchanged.  Such occurrences are 'either' and get the union of both bounds.
     """
-    from lsst.daf.relation import iteration
+    from lsst.daf.relation import (
+        BinaryOperationRelation,
+        Deduplication,
+        LeafRelation,
+        MarkerRelation,
+        Materialization,
+        Sort,
+        UnaryOperationRelation,
+        iteration,
+    )
 
     out = {}
 
-    def own_payload(node):
-        """The leaf index whose *own payload object* executing `node` may return, else None.
-        materialized() returns a MaterializedRowIterable unchanged; to_mapping returns a RowMapping with the same key
-        unchanged; transfers between iteration engines and elided markers do not copy."""
-        if node[0] == "leaf":
-            return node[1] if env.payloads[node[1]] is not None else None
-        if node[0] in ("xfer", "mat"):
-            return own_payload(node[1])
-        if node[0] == "dedup":
-            i = own_payload(node[1])
+    def own_payload(rel):
+        """Index of the leaf whose own payload object executing `rel` may return, else None."""
+        if isinstance(rel, LeafRelation):
+            i = env.leaf_index(rel)
+            return i if env.payloads[i] is not None else None
+        if isinstance(rel, MarkerRelation):
+            return own_payload(rel.target)
+        if isinstance(rel, UnaryOperationRelation) and isinstance(rel.operation, Deduplication):
+            i = own_payload(rel.target)
             return i if i is not None and isinstance(env.payloads[i], iteration.RowMapping) else None
         return None
 
-    def passes_through(node, kind):
-        return own_payload((kind, node)) is not None
+    def rec(rel, mode):
+        if isinstance(rel, LeafRelation):
+            out.setdefault(env.leaf_index(rel), [0, 0, 0])[mode] += 1
+        elif isinstance(rel, BinaryOperationRelation):
+            rec(rel.lhs, mode)
+            rec(rel.rhs, mode)
+        elif isinstance(rel, UnaryOperationRelation):
+            m = mode
+            if mode == 1 and isinstance(rel.operation, (Sort, Deduplication)):
+                m = 2 if own_payload(rel) is not None else 0
+            rec(rel.target, m)
+        elif isinstance(rel, Materialization):
+            m = mode
+            if mode == 1:
+                m = 2 if own_payload(rel) is not None else 0
+            rec(rel.target, m)
+        else:
+            rec(rel.target, mode)
 
-    def rec(node, mode):
-        if node[0] == "leaf":
-            out.setdefault(node[1], [0, 0, 0])[mode] += 1
-            return
-        m = mode
-        if mode == 1 and node[0] in EAGER and rels[id(node)] is not rels[id(node[1])]:
-            m = 2 if (node[0] in ("dedup", "mat") and passes_through(node[1], node[0])) else 0
-        for c in children(node):
-            rec(c, m)
-
-    rec(prog, 1)
+    rec(root, 1)
     return out
 
 
@@ -103,7 +117,7 @@ def run_case(case, stats):
         except BuildError as b:
             raise Violation("build-raised", f"{fmt(b.node, leaves)}: {type(b.exc).__name__}: {b.exc}", exc=b.exc)
         root = rels[id(prog)]
-        occ = occurrences(prog, leaves, rels, env)
+        occ = occurrences(root, env)
         ks = set(kinds(prog))
         lazy_only = all(v[0] == 0 and v[2] == 0 for v in occ.values())
         stats.c["class:lazy-only" if lazy_only else "class:mixed"] += 1
